@@ -200,3 +200,16 @@ func (o OpsF) Flush(r *go9p.SrvReq) {
 		r.Flush()
 	}
 }
+
+// OpsP (and OpsPF with FlushOp) route every request through the SrvReqProcessOps override path: the framework then
+// calls SrvReqProcess / SrvReqRespond instead of Process / PostProcess, and the implementation calls those itself,
+// as the interface's documentation prescribes.  Observable behaviour must be identical to the default path.
+type OpsP struct{ *Ops }
+
+func (o OpsP) SrvReqProcess(r *go9p.SrvReq) { r.Process() }
+func (o OpsP) SrvReqRespond(r *go9p.SrvReq) { r.PostProcess() }
+
+type OpsPF struct{ OpsF }
+
+func (o OpsPF) SrvReqProcess(r *go9p.SrvReq) { r.Process() }
+func (o OpsPF) SrvReqRespond(r *go9p.SrvReq) { r.PostProcess() }
